@@ -14,14 +14,15 @@ import (
 //
 // VerifC04Shift rewrites every timestamp the answer cache holds at rest by
 // -d: positive/negative (incl. scoped) entries' stored and cutUntil, subtree
-// cuts' stored/expires, denial-proof RRset expiries and NSEC3-conflict
-// tombstones.  Observationally that is a clock advance of d for everything at
+// cuts' stored/expires, denial-proof RRset expiries, NSEC3-conflict
+// tombstones and the retryAfter of RFC 9520 failure records (the DNS64
+// failure dimension of Lease64.tla).  Observationally that is a clock advance of d for everything at
 // rest; it is only sound at a quiescent point (no hit or write in progress).
 // Entries are shifted in place so pointer identity (the prefetch CAS) is kept.
 
 // VerifC04ShiftStats counts what one shift touched.
 type VerifC04ShiftStats struct {
-	Entries, Cuts, Proofs, Conflicts int
+	Entries, Cuts, Proofs, Conflicts, Failures int
 }
 
 // VerifC04Shift shifts every stored timestamp of the cache's store.
@@ -64,6 +65,17 @@ func (s *Store) VerifC04Shift(d time.Duration) VerifC04ShiftStats {
 			c.nsec3ConflictOverflowUntil = c.nsec3ConflictOverflowUntil.Add(-d)
 		}
 		c.mu.Unlock()
+	}
+	// RFC 9520 failure records: retryAfter is the only instant a record holds (the
+	// streak reset compares it with now as well, so one shift keeps both right)
+	if f := s.failure; f != nil && f.entries != nil {
+		f.entries.ForEach(func(_ uint64, v any) bool {
+			if e, ok := v.(*failureEntry); ok && e != nil {
+				e.retryAfter = e.retryAfter.Add(-d)
+				st.Failures++
+			}
+			return true
+		})
 	}
 	return st
 }
